@@ -53,6 +53,12 @@ RECURSIVE ParamSeqs(_, _, _)
 ParamSeqs(n, anns, dflts) == IF n = 0 THEN {<<>>} ELSE {Append(s, p) : s \in ParamSeqs(n - 1, anns, dflts), p \in ParamChoices(n, anns, dflts)}
 ParamLists(maxn, anns, dflts) == {ps \in UNION {ParamSeqs(n, anns, dflts) : n \in 0..maxn} : ValidParams(ps)}
 
+\* parameters of the callable that can NOT be bound by name and must therefore not show up in the input schema: a leading
+\* positional-only parameter, *args, **kwargs ("" = absent, else the parameter's name; "zz" is also the name the dangling
+\* keyword edges use)
+NoDecor == [po |-> "", va |-> "", vk |-> ""]
+Decors == {[po |-> po, va |-> va, vk |-> vk] : po \in {"", "p0"}, va \in {"", "args", "zz"}, vk \in {"", "kwargs"}}
+
 NPk(ps) == Cardinality({i \in DOMAIN ps : ps[i].kind = "pk"})
 RECURSIVE ValSeqs(_)
 ValSeqs(n) == IF n = 0 THEN {<<>>} ELSE {Append(s, v) : s \in ValSeqs(n - 1), v \in GivenVals}
@@ -60,10 +66,13 @@ ValSeqs(n) == IF n = 0 THEN {<<>>} ELSE {Append(s, v) : s \in ValSeqs(n - 1), v 
 KwChoices(ps, k) == [{ps[i].name : i \in (k + 1)..Len(ps)} -> GivenVals \cup {NoVal}]
 \* the return annotation only shows in the schema: both variants when nothing is bound, absent otherwise
 Rets(args, kw) == IF args = <<>> /\ \A nm \in DOMAIN kw : kw[nm] = NoVal THEN {"", "int"} ELSE {""}
-BindOf(ps) == UNION {UNION {{[kind |-> "bind", params |-> ps, ret |-> r, args |-> args, kw |-> kw, split |-> sp]
+BindOf(ps) == UNION {UNION {{[kind |-> "bind", params |-> ps, decor |-> NoDecor, ret |-> r, args |-> args, kw |-> kw, split |-> sp]
                                : r \in Rets(args, kw), sp \in (IF k > 0 THEN {FALSE, TRUE} ELSE {FALSE})}
                               : args \in ValSeqs(k), kw \in KwChoices(ps, k)} : k \in 0..NPk(ps)}
 Bind == UNION {BindOf(ps) : ps \in ParamLists(MaxPB, Anns, DefaultVals \cup {NoVal}) \cup ParamLists(MaxPB0, Anns, {NoVal})}
+\* callables with positional-only / *args / **kwargs parameters, nothing bound: schema and recorded defaults are judged
+Bind3 == {[kind |-> "bind", params |-> ps, decor |-> d, ret |-> "", args |-> <<>>, kw |-> [nm \in {ps[i].name : i \in DOMAIN ps} |-> NoVal], split |-> FALSE]
+            : ps \in ParamLists(1, Anns, DefaultVals \cup {NoVal}), d \in Decors \ {NoDecor}}
 
 EdgeShapes == {[st |-> st, so |-> so, dt |-> dt, mode |-> m[1], into |-> m[2]]
                  : st \in {"t1", "nope"}, so \in {"0", "zz"}, dt \in {"t2", "nope"},
@@ -72,12 +81,18 @@ SecondShapes == {[st |-> "t1", so |-> "0", dt |-> "t2", mode |-> "kw", into |-> 
                  [st |-> "nope", so |-> "0", dt |-> "t2", mode |-> "kw", into |-> "a"],
                  [st |-> "t1", so |-> "0", dt |-> "nope", mode |-> "kw", into |-> "a"],
                  [st |-> "t1", so |-> "0", dt |-> "t2", mode |-> "ps", into |-> "1"]}
-Edge1 == {[kind |-> "edge", ret |-> r, params |-> ps, edges |-> <<e>>]
+Edge1 == {[kind |-> "edge", ret |-> r, params |-> ps, decor |-> NoDecor, edges |-> <<e>>]
             : r \in EAnns, ps \in ParamLists(1, EAnns, {NoVal}) \cup ParamLists(MaxP, Anns, {NoVal}), e \in EdgeShapes}
-Edge2 == {[kind |-> "edge", ret |-> r, params |-> ps, edges |-> <<e, f>>]
+Edge2 == {[kind |-> "edge", ret |-> r, params |-> ps, decor |-> NoDecor, edges |-> <<e, f>>]
             : r \in Anns, ps \in ParamLists(MaxP2, Anns, {NoVal}), e \in EdgeShapes, f \in SecondShapes}
+\* consumer with positional-only / *args / **kwargs parameters; one edge into a real parameter, into each of those names,
+\* into a name that exists nowhere, or positional
+DecorShapes == {[st |-> "t1", so |-> "0", dt |-> "t2", mode |-> m[1], into |-> m[2]]
+                  : m \in {<<"kw", "a">>, <<"kw", "args">>, <<"kw", "zz">>, <<"kw", "kwargs">>, <<"kw", "p0">>, <<"ps", "0">>}}
+Edge3 == {[kind |-> "edge", ret |-> r, params |-> ps, decor |-> d, edges |-> <<e>>]
+            : r \in {"", "int"}, ps \in ParamLists(1, Anns, {NoVal}), d \in Decors \ {NoDecor}, e \in DecorShapes}
 
-BindJson(c) == [kind |-> "bind", params |-> c.params, ret |-> c.ret, args |-> c.args, split |-> c.split,
+BindJson(c) == [kind |-> "bind", params |-> c.params, decor |-> c.decor, ret |-> c.ret, args |-> c.args, split |-> c.split,
                 kw |-> SetToSeq({<<nm, c.kw[nm]>> : nm \in {x \in DOMAIN c.kw : c.kw[x] # NoVal}})]
 
 \* ---------------------------------------------------------------- reference semantics
@@ -104,7 +119,10 @@ EdgeFaults(c, e) ==
                  THEN Compat((CHOOSE p \in TaskOuts(c, e.st) : p[1] = e.so)[2], (CHOOSE p \in TaskIns(c, e.dt) : p[1] = e.into)[2])
                  ELSE "yes"
   IN (IF srcT THEN {} ELSE {"no_source_task"}) \cup (IF srcT /\ ~srcO THEN {"no_source_output"} ELSE {})
-  \cup (IF snkT THEN {} ELSE {"no_sink_task"}) \cup (IF snkT /\ e.mode = "kw" /\ ~snkP THEN {"no_sink_parameter"} ELSE {})
+  \cup (IF snkT THEN {} ELSE {"no_sink_task"})
+  \* a name that is no parameter: a fault - unless the consumer takes **kwargs (any name can then be passed; whether the
+  \* builder admits that is left open); *args and positional-only parameters can never be fed by name
+  \cup (IF snkT /\ e.mode = "kw" /\ ~snkP THEN (IF e.dt = "t2" /\ c.decor.vk # "" THEN {"open"} ELSE {"no_sink_parameter"}) ELSE {})
   \cup (IF verdict = "no" THEN {"incompatible"} ELSE {}) \cup (IF verdict = "open" THEN {"open"} ELSE {})
 AllFaults(c) == UNION {EdgeFaults(c, c.edges[i]) : i \in DOMAIN c.edges}
 
@@ -147,6 +165,9 @@ PostEdge(c, r) ==
 \cup (IF o.outcome = "job" /\ JobTaskNames(o) = Tasks
          /\ (Pairs(JobTask(o, "t2").ins) # InSchema(c.params) \/ Pairs(JobTask(o, "t1").outs) # OutSchema(c.ret))
       THEN {"schema_differs_from_signature"} ELSE {})
+\cup (IF r.first_before.outcome = "job" /\ JobTaskNames(r.first_before) = Tasks
+         /\ (Pairs(JobTask(r.first_before, "t2").ins) # InSchema(c.params) \/ Pairs(JobTask(r.first_before, "t1").outs) # OutSchema(c.ret))
+      THEN {"schema_differs_from_signature"} ELSE {})
 \cup (IF o.outcome = "problems" /\ faults = {} THEN {"rejected_without_problem"} ELSE {})
 \cup (IF o.outcome = "problems" /\ Len(o.problems) = 0 THEN {"empty_problem_list"} ELSE {})
 \cup (IF r.first_before = r.first_after THEN {} ELSE {"earlier_job_mutated"})
@@ -185,7 +206,9 @@ Post(c, r) == IF c.kind = "bind" THEN PostBind(c, r) ELSE PostEdge(c, r)
 \* pass therefore gets CASES_FILE = "none" (Generate does nothing) and reads the cases from JUDGE_CASES
 Generate == IF IOEnv.CASES_FILE = "none" THEN TRUE ELSE
             LET b == SetToSeq(Bind)
-                  s == [i \in 1..Len(b) |-> BindJson(b[i])] \o SetToSeq(Edge1) \o SetToSeq(Edge2)
+                  b3 == SetToSeq(Bind3)
+                  s == [i \in 1..Len(b) |-> BindJson(b[i])] \o [i \in 1..Len(b3) |-> BindJson(b3[i])]
+                       \o SetToSeq(Edge1) \o SetToSeq(Edge2) \o SetToSeq(Edge3)
               IN JsonSerialize(IOEnv.CASES_FILE, s)
 Judge ==
   LET cs == JsonDeserialize(IOEnv.JUDGE_CASES)
